@@ -10,10 +10,62 @@ from . import build, tlc
 from .pipeline import _run_driver, PY
 
 
+def crash_replay(d, info):
+    """a crash / fault point: the scenario is recorded again (operation log, old and new state), operation k is made to
+    kill the process / to fail, a fresh process recovers, TLC judges"""
+    import subprocess
+    from .check import ROOT, load_known, active_known
+    from .tlc import tla_set
+    lib = build.libpath(build.build("ossl"))
+    shim = os.path.join(ROOT, "build", "fsshim.so")
+    mode = info["kind"]
+    wd = tempfile.mkdtemp(prefix="verif-replay-", dir=os.environ.get("VERIF_SCRATCH", "/var/tmp"))
+    try:
+        sfile = os.path.join(wd, "sc.json")
+        json.dump([info["scenario"]], open(sfile, "w"))
+        out = os.path.join(wd, "out.ndjson")
+        r = subprocess.run([PY, "-m", "vf.drv_crash", lib, sfile, out, os.path.join(wd, "w"), "1", mode, shim, "8"], cwd=ROOT,
+                           env=dict(os.environ, PYTHONPATH=ROOT), stdout=subprocess.PIPE, stderr=subprocess.PIPE, timeout=1500)
+        if r.returncode or not os.path.exists(out):
+            print("BROKEN replay: driver failed: " + r.stderr.decode()[-500:])
+            return 2
+        lines = open(out).readlines()
+        keep = [l for l in lines if json.loads(l)["e"] == "Log" or json.loads(l).get("k") == info.get("k")]
+        tr = os.path.join(wd, "one.ndjson")
+        open(tr, "w").writelines(keep)
+        known = sorted(e["deviation"] for e in active_known(load_known(info["property"])) if e.get("deviation"))
+        known = [x for x in known if x in ("EmptyObject", "EmptyToken", "PartialCreate", "PartialNewToken", "OkButNotStored",
+                                           "FaultNotAtomic")]
+        cfg = os.path.join(wd, "t.cfg")
+        tlc.write_cfg(cfg, spec="TSpec", constants={"Dev": tla_set(known), "Judge": '"%s"' % info.get("judge", "both")},
+                      constraint="TrackMax", postcondition="TraceAccepted")
+        os.makedirs(os.path.join(wd, "v"))
+        res = tlc.validate_trace("Trace_Crash", cfg, tr, os.path.join(wd, "v"), len(keep), env={"JAVA_TOOL_OPTIONS": "-Xss256m"})
+        if res.accepted:
+            print("replay accepted: operation %s of %s gets a verdict on the current tree" % (info.get("k"), info["scenario"]))
+            return 0
+        print("replay rejected: %s" % keep[res.matched].strip()[:400])
+        print("VIOLATION property=%s replay=%s" % (info["property"], d))
+        return 1
+    finally:
+        shutil.rmtree(wd, ignore_errors=True)
+
+
 def main(d):
     info = json.load(open(os.path.join(d, "info.json")))
+    if info.get("kind") in ("crash", "fault"):
+        return crash_replay(d, info)
     beh = os.path.join(d, "behaviour.json")
     lib = build.libpath(build.build(info.get("build_cfg", "ossl")))
+    # library paths among the recorded driver arguments belong to the build of that time: use the current ones
+    args = []
+    for a in info["driver_args"]:
+        if isinstance(a, str) and a.endswith("libsofthsm2.so"):
+            a = build.libpath(build.build("botan" if "/botan/" in a else "ossl"))
+        elif isinstance(a, str) and a.endswith("softhsm2-util"):
+            a = build.utilpath(build.build("ossl", ("softhsm2", "softhsm2-util")))
+        args.append(a)
+    info["driver_args"] = args
     wd = tempfile.mkdtemp(prefix="verif-replay-", dir=os.environ.get("VERIF_SCRATCH", "/var/tmp"))
     try:
         out = os.path.join(wd, "trace.ndjson")
